@@ -50,6 +50,24 @@ def grid(rng, n, den, lo=0, hi=None):
     return [Fraction(rng.randint(lo, hi), den) for _ in range(n)]
 
 
+def f64_only(rng, n):
+    """n exact values of float64 numbers that float32 cannot represent (0.1, 0.7000000001, magnitudes beyond the float32
+    range, sub-float32-resolution differences): as Fractions, so the exact models can follow them"""
+    out = []
+    for _ in range(n):
+        u = rng.random()
+        if u < 0.4:
+            v = rng.choice([0.1, 0.2, 0.3, 0.7000000001, -0.1, 1 / 3, 2 / 3, 1e-50, -1e-50])
+        elif u < 0.6:
+            v = rng.choice([1e39, -1e39, 3.5e38, -3.5e38, 1e300])
+        elif u < 0.8:
+            v = 1.0 + rng.randint(1, 1000) * 2.0 ** -40          # distinct in float64, all equal to 1.0 in float32
+        else:
+            v = rng.uniform(-4, 4)
+        out.append(Fraction(v))
+    return out
+
+
 class Entry:
     name = ""
     cls: Any = None
